@@ -8,7 +8,8 @@ from .. import core
 
 PROP = "C07"
 MODULE = "GmqttVerif.Properties.C07"
-THEOREMS = ["GmqttVerif.Retained.retained_refines_map", "GmqttVerif.Retained.matched_exact",
+THEOREMS = ["GmqttVerif.C07Order.retained_updated_between_hook_and_delivery",
+            "GmqttVerif.Retained.retained_refines_map", "GmqttVerif.Retained.matched_exact",
             "GmqttVerif.Retained.iterate_exact", "GmqttVerif.Retained.iterate_stop_prefix",
             "GmqttVerif.Retained.matched_exact_hashLast",
             # broker level (Properties/C07Broker.lean): B.publish / B.subscribe / B.sendWill and the field B.retained
@@ -22,6 +23,7 @@ THEOREMS = ["GmqttVerif.Retained.retained_refines_map", "GmqttVerif.Retained.mat
             "GmqttVerif.Broker.retained_changes_only_by_publish_or_will",
             "GmqttVerif.Broker.reachable_retained_ok", "GmqttVerif.Broker.online_has_session"]
 EXTRA_MODULES = ['GmqttVerif.Properties.C07Broker']
+NEEDS_FACTS = ["PubOrder"]
 COMPS = ["retained", "broker"]
 
 LEVELS = ["a", "b", "", "$s"]
